@@ -77,7 +77,7 @@ func parseJSONBObject(data []byte, entries []uint32, dataStart, count int) map[s
 	for i := 0; i < count; i++ {
 		kOff, kLen := entryOffLen(entries, i, 0)
 		key := ""
-		if dataStart+kOff+kLen <= len(data) {
+		if kLen >= 0 && dataStart+kOff+kLen <= len(data) {
 			key = string(data[dataStart+kOff : dataStart+kOff+kLen])
 		}
 
@@ -136,7 +136,7 @@ func endOffset(entries []uint32, idx int) int {
 func decodeJEntry(data []byte, off, length int, je uint32) interface{} {
 	switch je & 0x70000000 {
 	case jeString:
-		if off+length <= len(data) {
+		if length >= 0 && off+length <= len(data) {
 			return string(data[off : off+length])
 		}
 	case jeNumeric:
